@@ -71,19 +71,61 @@ func c10KindSwitches(f *kit.Func) []*c10Switch {
 			return false
 		}
 		sw, ok := n.(*ast.SwitchStmt)
-		if !ok || sw.Tag == nil || kit.RType(info.TypeOf(sw.Tag)) != "Kind" {
+		if !ok {
 			return true
 		}
 		s := &c10Switch{f: f, sw: sw}
-		for _, st := range sw.Body.List {
-			cc := st.(*ast.CaseClause)
-			cl := &c10Clause{cc: cc, isDef: cc.List == nil}
-			for _, e := range cc.List {
-				if v, ok := kit.ConstInt(info, e); ok && v >= 0 && v <= 26 {
-					cl.kinds = append(cl.kinds, reflect.Kind(v))
+		switch {
+		case sw.Tag != nil && kit.RType(info.TypeOf(sw.Tag)) == "Kind":
+			for _, st := range sw.Body.List {
+				cc := st.(*ast.CaseClause)
+				cl := &c10Clause{cc: cc, isDef: cc.List == nil}
+				for _, e := range cc.List {
+					if v, ok := kit.ConstInt(info, e); ok && v >= 0 && v <= 26 {
+						cl.kinds = append(cl.kinds, reflect.Kind(v))
+					}
 				}
+				s.clauses = append(s.clauses, cl)
 			}
-			s.clauses = append(s.clauses, cl)
+		case sw.Tag == nil:
+			// switch { case k == reflect.Bool: …; case k == reflect.Int || k == reflect.Int8: … }
+			// on one and the same kind expression k
+			var subject ast.Expr
+			good := len(sw.Body.List) > 0
+			for _, st := range sw.Body.List {
+				cc := st.(*ast.CaseClause)
+				cl := &c10Clause{cc: cc, isDef: cc.List == nil}
+				for _, e := range cc.List {
+					for _, leaf := range c10Leaves(e, token.LOR) {
+						be, ok := leaf.(*ast.BinaryExpr)
+						if !ok || be.Op != token.EQL {
+							good = false
+							continue
+						}
+						x, k := be.X, be.Y
+						if _, isC := kit.ConstInt(info, x); isC && kit.RType(info.TypeOf(x)) == "Kind" {
+							x, k = k, x
+						}
+						v, isC := kit.ConstInt(info, k)
+						if !isC || kit.RType(info.TypeOf(k)) != "Kind" || v < 0 || v > 26 || kit.RType(info.TypeOf(x)) != "Kind" {
+							good = false
+							continue
+						}
+						if subject == nil {
+							subject = x
+						} else if !kit.SameExpr(info, subject, x) {
+							good = false
+						}
+						cl.kinds = append(cl.kinds, reflect.Kind(v))
+					}
+				}
+				s.clauses = append(s.clauses, cl)
+			}
+			if !good || subject == nil {
+				return true
+			}
+		default:
+			return true
 		}
 		byStmt[sw] = s
 		all = append(all, s)
@@ -542,10 +584,28 @@ func c10IndexLike(f *kit.Func, e ast.Expr) bool {
 		default:
 			return true
 		}
-		for _, p := range [][2]ast.Expr{{be.X, be.Y}, {be.Y, be.X}} {
+		for side, p := range [][2]ast.Expr{{be.X, be.Y}, {be.Y, be.X}} {
 			t1, c1 := norm(p[0])
 			t2, c2 := norm(p[1])
-			if kit.SameExpr(info, t1, e) && c10LenLike(f, t2) && c1-c2 == 1 {
+			if !kit.SameExpr(info, t1, e) || !c10LenLike(f, t2) {
+				continue
+			}
+			op := be.Op
+			if side == 1 { // length on the left: mirror
+				op = map[token.Token]token.Token{token.LSS: token.GTR, token.GTR: token.LSS, token.LEQ: token.GEQ, token.GEQ: token.LEQ}[op]
+			}
+			// the test separates e <= length + b from e > length + b;
+			// an index is compared with length - 1
+			var b int64
+			switch op {
+			case token.GTR, token.LEQ:
+				b = c2 - c1
+			case token.GEQ, token.LSS:
+				b = c2 - c1 - 1
+			default:
+				continue
+			}
+			if b == -1 {
 				found = true
 			}
 		}
@@ -561,7 +621,7 @@ func c10Limits(c *kit.Ctx, f *kit.Func, role string) (out []*c10Limit, undecided
 		if !ok || !c10ReturnsError(f, ifs.Body) {
 			return true
 		}
-		be, ok := ast.Unparen(ifs.Cond).(*ast.BinaryExpr)
+		be, ok := ast.Unparen(c10ResolveLocal(f, ifs.Cond)).(*ast.BinaryExpr)
 		if !ok {
 			return true
 		}
@@ -648,7 +708,7 @@ func c10R3(c *kit.Ctx, m *c10Model) {
 		}
 		o.Obligation = "admits " + what
 		if l.accept < need {
-			o.Violation("`%s` refuses sizes above %d (%s) but must admit %s", l.f.Str(l.ifs.Cond), l.accept, l.why, what)
+			o.Violation("`%s` refuses sizes above %d (%s) but must admit %s", l.f.Str(c10ResolveLocal(l.f, l.ifs.Cond)), l.accept, l.why, what)
 		} else {
 			o.OK("admits up to %d (%s)", l.accept, l.why)
 		}
